@@ -324,7 +324,7 @@ void h_fmod_reduce_f(void) B_FMOD(float, f, __CPROVER_assume(REDUCE_WIN_f && ABS
 /*@GROUP name=remainder_reduce_f props=C16,C02 kind=B bound=normal-operands,|y|/2<|x|<8|y| unwind=26 unwindset=_ZN3etl6detail9fmod_implIfEET_S2_S2_.0:5,_ZN3etl6detail9fmod_implIfEET_S2_S2_.1:6 solver=kissat timeout=1800 tier=thorough@*/
 void h_remainder_reduce_f(void) B_REMAINDER(float, f, __CPROVER_assume(REDUCE_WIN_f && 2 * (double)ABS_f(x) > (double)ABS_f(y)); VF_KNOWN(C16_remainder_is_fmod, ABS_f(x) < ABS_f(y) || 2 * (double)ABS_f(x) >= 3 * (double)ABS_f(y)); VF_KNOWN(C16_fmod_neg_zero, ABS_f(x) == ABS_f(y) && SIGN_f(x)))
 
-/*@GROUP name=fma_f props=C16,C13,C02 kind=F timeout=600 tier=thorough solver=kissat@*/
+/*@GROUP name=fma_f props=C16,C13,C02 kind=F timeout=2400 tier=thorough solver=kissat@*/
 void h_fma_f(void) B_FMA(float, f, VF_KNOWN(C16_fma_constexpr_not_fused, FIN_f(x) && FIN_f(y) && vf_fma_inexact_f))
 
 /* ---------------- double: all 2^64 bit patterns symbolic (tier=thorough, time-boxed) */
